@@ -79,6 +79,24 @@ func forkOfItem(info *types.Info, e ast.Expr) string {
 
 // forkEpochOfCond: cond of the form `x < S.F_FORK_EPOCH` -> F.
 func forkEpochLess(e ast.Expr) (string, bool) {
+	f, op, ok := forkEpochCmp(e)
+	return f, ok && op == token.LSS
+}
+
+// forkEpochCmp: any ordering comparison `x OP S.F_FORK_EPOCH`.
+func forkEpochCmp(e ast.Expr) (string, token.Token, bool) {
+	be, ok := ast.Unparen(e).(*ast.BinaryExpr)
+	if !ok || (be.Op != token.LSS && be.Op != token.LEQ && be.Op != token.GTR && be.Op != token.GEQ) {
+		return "", 0, false
+	}
+	sel, ok := ast.Unparen(be.Y).(*ast.SelectorExpr)
+	if !ok || !strings.HasSuffix(sel.Sel.Name, "_FORK_EPOCH") {
+		return "", 0, false
+	}
+	return strings.TrimSuffix(sel.Sel.Name, "_FORK_EPOCH"), be.Op, true
+}
+
+func forkEpochLessOld(e ast.Expr) (string, bool) {
 	be, ok := ast.Unparen(e).(*ast.BinaryExpr)
 	if !ok || be.Op != token.LSS {
 		return "", false
@@ -129,7 +147,7 @@ func ruleForkChain(c *Ctx) {
 			if !ok {
 				return true
 			}
-			if _, ok := forkEpochLess(ifs.Cond); !ok {
+			if _, _, ok := forkEpochCmp(ifs.Cond); !ok {
 				return true
 			}
 			// collect chain
@@ -137,6 +155,7 @@ func ruleForkChain(c *Ctx) {
 				fork string
 				ret  ast.Expr
 				pos  token.Pos
+				op   token.Token
 			}
 			var brs []br
 			var elseRet ast.Expr
@@ -144,12 +163,12 @@ func ruleForkChain(c *Ctx) {
 			cur := ifs
 			wellFormed := true
 			for {
-				f, ok := forkEpochLess(cur.Cond)
+				f, op, ok := forkEpochCmp(cur.Cond)
 				if !ok || cur.Init != nil {
 					wellFormed = false
 					break
 				}
-				brs = append(brs, br{f, singleReturnExpr(cur.Body), cur.Pos()})
+				brs = append(brs, br{f, singleReturnExpr(cur.Body), cur.Pos(), op})
 				switch e := cur.Else.(type) {
 				case *ast.IfStmt:
 					cur = e
@@ -173,6 +192,10 @@ func ruleForkChain(c *Ctx) {
 			for i, b := range brs {
 				key := name + "[<" + b.fork + "]"
 				want := i + 1
+				if b.op != token.LSS {
+					c.bad(key, b.pos, "the chain tests `epoch %s %s_FORK_EPOCH`: a fork is active from its fork epoch on, so the boundary epoch must fall through to the next branch (`<`)", b.op, b.fork)
+					continue
+				}
 				if fi, ok := idx[b.fork]; !ok {
 					c.bad(key, b.pos, "fork %s is not in the registry %v", b.fork, forks)
 					continue
